@@ -302,3 +302,24 @@ func (l *Ledger) Commit(child util.MerklePatriciaTrieI) {
 	}
 	child.Cache().Commit()
 }
+
+// BalancesMB is Balances with a magic block served for every round (current and latest finalized).
+func BalancesMB(b *block.Block, txn *transaction.Transaction, mb *block.MagicBlock) (*cstate.StateContext, util.MerklePatriciaTrieI) {
+	t := NewTrie()
+	if b == nil {
+		b = &block.Block{}
+	}
+	if txn == nil {
+		txn = &transaction.Transaction{}
+	}
+	lfmb := &block.Block{}
+	lfmb.MagicBlock = mb
+	sc := cstate.NewStateContext(b, t, txn,
+		func(int64) *block.MagicBlock { return mb },
+		func() *block.Block { return b },
+		func() *block.MagicBlock { return mb },
+		func() encryption.SignatureScheme { return encryption.NewBLS0ChainScheme() },
+		func() *block.Block { return lfmb },
+		nil)
+	return sc, t
+}
